@@ -510,10 +510,20 @@ def op_points(env):
         rows.append((float(p.x), float(p.y), True))
     for _ in range(n_miss):
         rows.append((maxx + span * float(rng.uniform(2, 9)), maxy + span * float(rng.uniform(2, 9)), False))
+    blank_row = chance(rng, 0.2)
+    if blank_row:
+        # a row whose coordinate cells are blank (a site that has not been surveyed yet): it is a request like any other,
+        # it lies nowhere in the model, and the rows after it keep their own places
+        rows.append((float('nan'), float('nan'), False))
+        n_miss += 1
     order = rng.permutation(len(rows))
     rows = [rows[i] for i in order]
+    if blank_row and len(rows) >= 2 and rows[-1][0] != rows[-1][0]:
+        rows[0], rows[-1] = rows[-1], rows[0]        # not the last row
+    if blank_row:
+        env.obs.cls('points:csv-with-blank-coordinate-row')
     lon_name, lat_name = pick(rng, [('lon', 'lat'), ('lon', 'lat'), ('x', 'y'), ('longitude', 'latitude'), ('lat', 'lon')])
-    columns = {lon_name: [repr(r[0]) for r in rows], lat_name: [repr(r[1]) for r in rows],
+    columns = {lon_name: ['' if r[0] != r[0] else repr(r[0]) for r in rows], lat_name: ['' if r[1] != r[1] else repr(r[1]) for r in rows],
                'name': [pick(rng, ['site%d', 'reef #%d', 'st. %d; north', 'a b %d']) % i for i in range(len(rows))], 'val': [repr(round(float(v), 3)) for v in rng.uniform(0, 9, size=len(rows))],
                'n': [str(int(v)) for v in rng.integers(0, 99, size=len(rows))]}
     if len(rows) >= 2 and chance(rng, 0.4):
